@@ -678,7 +678,7 @@ class Plucker(SMUserList):
                 l = 0
             else:
                 # lines don't intersect, find closest distance
-                l = abs(l1 * l2) / np.linalg.norm(np.cross(l1.uw, l2.uw))
+                l = abs(np.dot(l1.w, l2.v) + np.dot(l2.w, l1.v)) / np.linalg.norm(np.cross(l1.w, l2.w))
         return l
 
     
